@@ -1,4 +1,5 @@
 import ComposeVerif.Lemmas.C11Top
+import ComposeVerif.Lemmas.AuditCmd
 import ComposeVerif.Lemmas.Path
 import ComposeVerif.Gen.Tables
 /-!
